@@ -41,7 +41,7 @@ def main():
             for pid in meta['checks_to_run']:
                 t0 = time.time()
                 c = sh(f'cd {ROOT} && ./check {pid} quick --no-selfcheck', timeout=7200)
-                viol = re.findall(r'^VIOLATION property=\S+ replay=\S*/([^/\s]+)\.json', c.stdout, re.M)
+                viol = re.findall(r'^VIOLATION property=\S+ replay=.*/([^/]+)\.json$', c.stdout, re.M)
                 harnesses = sorted({re.sub(r'-[0-9a-f]{10}$', '', v).split('-', 1)[1] for v in viol})
                 checks[pid] = {'cmd': f'./check {pid} quick --no-selfcheck', 'exit': c.returncode, 'violating_harnesses': harnesses,
                                'wall_s': round(time.time() - t0), 'summary': c.stdout.strip().splitlines()[-1][:200] if c.stdout.strip() else ''}
